@@ -277,7 +277,32 @@ def run_placed(case):
                                                                       f'(raised in {innermost_frame(e)}), not ParserError', case)], info
 
 
+AST_FAILS = ['undefined_zz9', 'nofn9(1)', '[][0]', '{}["k"]', '[].pop()', 'u9 += 1', '"abc"[9]', 'map([1], (a, b) => b)', 'x9 = undefined_zz9\nx9']
+
+
+def run_ast_names(case):
+    """a definition passed through ast_names fails at the language level (or exhausts the budget): ParserError"""
+    from smartquery import ParserError
+    p = parser()
+    try:
+        defs = {k: p.parse(v) for k, v in case['defs'].items()}
+    except Exception:  # noqa
+        return [], {'discard': True}
+    try:
+        got = p.eval(case['src'], {}, ast_names=defs, max_ops_evaluated=case['budget'])
+    except ParserError:
+        return [], {'discard': False}
+    except RecursionError:
+        return [], {'discard': True}
+    except Exception as e:  # noqa
+        return [Failure(f'language-failure-as:{type(e).__name__}:ast_names-definition', f'ast_names {case["defs"]!r}, program {case["src"]!r}, budget {case["budget"]}: '
+                        f'{type(e).__name__}: {e} (raised in {innermost_frame(e)}), not ParserError', case)], {'discard': False}
+    return [Failure('language-failure-not-raised:ast_names-definition', f'ast_names {case["defs"]!r}: eval returned {got!r}', case)], {'discard': False}
+
+
 def run_case(case):
+    if case.get('kind') == 'ast':
+        return run_ast_names(case)[0]
     if case.get('kind') == 'placed':
         return run_placed(case)[0]
     return judge_text(case['text'], case)[0]
@@ -330,6 +355,13 @@ def text_cases(draw):
 def placed_cases(draw):
     n = lambda k: draw(hst.integers(0, k - 1))  # noqa
     pick = lambda xs: xs[n(len(xs))]  # noqa
+    if n(12) == 0:
+        bad = pick(AST_FAILS)
+        defs = {'ok9': 'v => v'} if n(2) else {}
+        defs['h9'] = bad
+        if n(3) == 0:
+            return {'kind': 'ast', 'placed': 'ast_names-budget', 'defs': {'h9': '[1, 2, 3] | map(v => v * 2)'}, 'src': '1', 'budget': 1 + n(8)}
+        return {'kind': 'ast', 'placed': 'ast_names-definition', 'defs': defs, 'src': pick(['1', 'h9', 'ok9(2)']), 'budget': 1000}
     stmts, env, labels = draw(typed.programs(max_stmts=4, max_depth=3, allow_errors=False, regex=False))
     stmts = list(stmts)
     mode = n(10)
@@ -481,6 +513,11 @@ def run_job(job):
 
     def check_placed(case):
         case = dict(case)
+        if case['kind'] == 'ast':
+            fails, info = run_ast_names(case)
+            if info['discard']:
+                return hyp.Result(discard=True)
+            return hyp.Result(fails, True, ['placed:' + case['placed']], key=repr(case), sample=case)
         if case['budget'] is not None and case['budget'] < 0:
             # budget = number of operations needed minus a drawn amount (at least 1)
             import copy
